@@ -4,16 +4,9 @@ from props import _lay
 
 LEVEL = "proof"
 MODULE = "Phil.Props.C19"
-LEVEL_TEXT = ("Lean theorems about the printer model, for all trees: the prefix law (printing with prefix p at width w = "
-              "prepending p to every line printed at width w-|p|), the expert-level gate (printing with expert level k = "
-              "printing the tree pruned at k, dotted-prefix scopes of hidden objects hidden with them), attribute levels only "
-              "add lines. The printer model is tied to /repo by a correspondence run of `show` over expert x attributes level x "
-              "prefix x width; the oracle evaluates the three clauses of the property on the implementation (filtered text "
-              "re-parses to the pruned tree; re-parsed attributes per level; line-wise prefix law).")
-LEVEL_NOTE = ("'Filtered text parses to exactly that sub-tree' combines the proved gate theorem with the print/parse round trip "
-              "(C01), which is checked by oracle and correspondence, not proved. Prefix law is checked on trees whose words "
-              "contain no newline (physical lines inside a quoted value belong to the value).")
-TECHNIQUE = "Lean 4 theorems on the printer model (prefix law, expert gate = prune, level monotonicity) + differential correspondence"
+LEVEL_TEXT = 'Lean theorems about the printer model: for trees with attributes and every expert setting, width and blank prefix the filtered text is the text of the pruned tree and parses to exactly that sub-tree (filtered_text_parses_to_subtree, prune_spec, visible_scope, negative_or_absent_shows_everything), the prefix law for all trees (show_prefix family, prefix_changes_nothing_else), attribute levels only add lines (attrs_level_mono). Tied to /repo by a correspondence run of show over expert x attributes level x prefix x width; the oracle evaluates the three clauses on the implementation (filtered text re-parses to the pruned tree, dotted and braced; attributes per level; line-wise prefix law).'
+LEVEL_NOTE = 'Closed at attributes level 0; levels > 0 by monotonicity + correspondence. Prefix law on trees whose words contain no newline (physical lines inside a quoted value belong to the value).'
+TECHNIQUE = 'Lean 4 theorems on the printer model (expert gate = prune, closed filtered round trip, prefix law, level monotonicity) + differential correspondence'
 RULE = ("layout-grammar trees with expert levels (unset, 0..4) on scopes and definitions at any depth incl. dotted scopes and "
         "disabled objects x expert_level {None,-1,0..5} x attributes_level {0..3} x prefix {'', '  ', '# ', '!x '} x widths; "
         "non-trivial = some object carries an expert level")
